@@ -8,7 +8,7 @@ use crate::gen_dlt::*;
 use crate::rng::Rng;
 use crate::scripted::{gen_sched, Sched, ScriptedSource};
 use crate::viol;
-use adlt::dlt::{DltMessage, DLT_MAX_STORAGE_MSG_SIZE, DLT_MSG_PARSER_LOW_MARK};
+use adlt::dlt::{DltMessage, DLT_MAX_STORAGE_MSG_SIZE};
 use adlt::utils::{DltMessageIterator, LowMarkBufReader};
 use serde::{Deserialize, Serialize};
 use std::io::{BufRead, Read, Seek, SeekFrom};
